@@ -1,6 +1,7 @@
 package c07admit
 
 import (
+	"encoding/hex"
 	"fmt"
 	"math/rand"
 	"testing"
@@ -80,8 +81,15 @@ func (w *World) proposeRound(res *vh.Result, tr *vh.Trace, src string, cands []*
 		stable := err == nil && rt.Hash() == tx.Hash()
 		objs = append(objs, tx)
 		byHash[tx.Hash()] = len(objs)
-		txs = append(txs, map[string]any{"size": tx.Size(), "sysfee": tx.SystemFee / sysScale, "enc": enc, "hash": tx.Hash().StringLE(),
-			"stable": stable, "cell": cell, "sysfee_exact": tx.SystemFee%sysScale == 0})
+		m := map[string]any{"size": tx.Size(), "sysfee": tx.SystemFee / sysScale, "enc": enc, "hash": tx.Hash().StringLE(),
+			"stable": stable, "cell": cell, "sysfee_exact": tx.SystemFee%sysScale == 0}
+		if b := w.offered[tx.Hash()]; !stable && b != nil { // for the replay: the bytes as they were received
+			m["raw"] = hex.EncodeToString(b.Raw)
+			if rt != nil {
+				m["hash_after_block_round_trip"] = rt.Hash().StringLE()
+			}
+		}
+		txs = append(txs, m)
 	}
 	ids := func(l []*transaction.Transaction) []int {
 		r := []int{}
